@@ -247,6 +247,89 @@ fn slice_classes(ctx: &Ctx) {
     }
 }
 
+/// The local buffer directly before or directly after the guest bytes in the same allocation
+/// (the two ranges touch but do not overlap): every length 1..=8 x guest address mod 8 x the
+/// buffer-level entry points.
+fn adjacent_classes(ctx: &Ctx) {
+    let mut store = vec![0u8; 160];
+    let base = (8 - store.as_ptr() as usize % 8) % 8 + 64;
+    let sp = store.as_mut_ptr();
+    let range = (sp as usize, sp as usize + 160);
+    for len in 1..=8usize {
+        for gm in 0..8usize {
+            for before in [true, false] {
+                for ep in ["write", "read", "write_slice", "read_slice", "copy_from<u8>", "copy_to<u8>", "read_volatile_from(&[u8])", "write_volatile_to(&mut [u8])", "write_all_volatile_to(&mut [u8])"] {
+                    let goff = base + gm;
+                    let loff = if before { goff - len } else { goff + len };
+                    set_cur(ep, len, gm, loff % 8);
+                    // SAFETY: store is 160 bytes; the slices below are disjoint ranges of it
+                    unsafe {
+                        for i in 0..160 {
+                            *sp.add(i) = 0x10 + i as u8;
+                        }
+                    }
+                    let before_copy = store.clone();
+                    // SAFETY: [goff, goff+len) and [loff, loff+len) are disjoint and inside store
+                    let vs = unsafe { VolatileSlice::new(sp.add(goff), len) };
+                    let local: &mut [u8] = unsafe { std::slice::from_raw_parts_mut(sp.add(loff), len) };
+                    let (dir, (r, events)): (Dir, (Result<(), String>, Vec<Event>)) = match ep {
+                        "write" => (Dir::ToGuest, traced(|| vs.write(local, 0).map(|_| ()).map_err(|e| format!("{:?}", e)))),
+                        "read" => (Dir::FromGuest, traced(|| vs.read(local, 0).map(|_| ()).map_err(|e| format!("{:?}", e)))),
+                        "write_slice" => (Dir::ToGuest, traced(|| vs.write_slice(local, 0).map_err(|e| format!("{:?}", e)))),
+                        "read_slice" => (Dir::FromGuest, traced(|| vs.read_slice(local, 0).map_err(|e| format!("{:?}", e)))),
+                        "copy_from<u8>" => (Dir::ToGuest, traced(|| {
+                            vs.copy_from(&*local);
+                            Ok(())
+                        })),
+                        "copy_to<u8>" => (Dir::FromGuest, traced(|| {
+                            vs.copy_to(local);
+                            Ok(())
+                        })),
+                        "read_volatile_from(&[u8])" => (Dir::ToGuest, traced(|| {
+                            let mut src: &[u8] = &*local;
+                            vs.read_volatile_from(0, &mut src, len).map(|_| ()).map_err(|e| format!("{:?}", e))
+                        })),
+                        "write_volatile_to(&mut [u8])" => (Dir::FromGuest, traced(|| {
+                            let mut dst: &mut [u8] = &mut *local;
+                            vs.write_volatile_to(0, &mut dst, len).map(|_| ()).map_err(|e| format!("{:?}", e))
+                        })),
+                        _ => (Dir::FromGuest, traced(|| {
+                            let mut dst: &mut [u8] = &mut *local;
+                            vs.write_all_volatile_to(0, &mut dst, len).map_err(|e| format!("{:?}", e))
+                        })),
+                    };
+                    ctx.case(true);
+                    let g_addr = sp as usize + goff;
+                    let l_addr = sp as usize + loff;
+                    let mut bad: Option<(String, String)> = None;
+                    // only accesses to the guest bytes are judged: the guest range is [g, g+len)
+                    let guest_only = (g_addr, g_addr + len);
+                    let _ = range;
+                    if let Err(e) = r {
+                        bad = Some(("unexpected-error".into(), e));
+                    } else if let Err(e) = judge(&events, dir, g_addr, l_addr, len, guest_only) {
+                        bad = Some(e);
+                    } else {
+                        let mut want = before_copy.clone();
+                        match dir {
+                            Dir::ToGuest => want[goff..goff + len].copy_from_slice(&before_copy[loff..loff + len]),
+                            Dir::FromGuest => want[loff..loff + len].copy_from_slice(&before_copy[goff..goff + len]),
+                        }
+                        if store != want {
+                            bad = Some(("data".into(), "the bytes did not arrive unchanged, or other bytes changed".into()));
+                        }
+                    }
+                    if let Some((k, d)) = bad {
+                        let key = format!("C06/slice/{} (local buffer adjacent to the guest bytes)/{}", ep, k);
+                        let rp = if ctx.has_failed(&key) { Value::Null } else { json!({"entry_point": ep, "len": len, "guest_addr_mod_8": gm, "local_buffer": if before { "ends where the guest bytes start" } else { "starts where the guest bytes end" }}) };
+                        ctx.fail(&key, &format!("len {} guest%8={} local buffer {}: {}", len, gm, if before { "directly before" } else { "directly after" }, d), rp);
+                    }
+                }
+            }
+        }
+    }
+}
+
 /// Vec<u8> sinks in every fill state: capacity 0..=24 x bytes already in the vector 0..=capacity
 /// (the append position decides the local alignment; spare capacity smaller than, equal to and
 /// larger than the transfer) x transfer length 1..=8 x guest address mod 8, exact and plain form.
@@ -711,7 +794,7 @@ fn schedules(ctx: &Ctx) {
 
 pub fn run(tier: Tier, replay: Option<String>) -> i32 {
     let ctx = crate::new_ctx("C06", tier, "model_checking", &replay);
-    ctx.set_rule("(a) trace enumeration: for every transfer length 0..=8 x guest address mod 8 x local address mod 8 (576 classes) x 18 entry points that funnel into the byte-copy helper (write/read/write_slice/read_slice, copy_to/copy_from::<u8> and VolatileArrayRef<u8> copies with a local buffer of the same length and a longer one, &[u8]/&mut [u8]/Vec<u8>/Cursor adapters, plain and exact stream forms; Vec<u8> sinks additionally in every fill state: capacity 0..=24 x bytes already held x length 1..=8 x guest address mod 8) and for whole objects of 1..16 bytes at every guest address of two adjacent regions (incl. objects straddling the boundary) through the guest-memory layer: hook H1 records kind, address and width of every primitive volatile access; required: the guest bytes accessed are exactly the range, each once, every access naturally aligned, exactly ONE access of the full width when the length is 1/2/4/8 and both addresses are aligned to it, the data arrives, and a transfer that moved bytes without a recorded volatile access is a violation; atomic store/load for all 10 integer types at every offset: Ok iff aligned, value round-trips. (b) E3: all interleavings, with a scheduling point before every primitive access, of a writer flipping 0 <-> all-ones twice and a reader reading twice (u16, u32, u64, and a 16-byte object whose first chunk is the last aligned u64 of a region): the reader may only see the old or the new value. States = choice-tree nodes, traces = schedules executed on the real code.");
+    ctx.set_rule("(a) trace enumeration: for every transfer length 0..=8 x guest address mod 8 x local address mod 8 (576 classes) x 18 entry points that funnel into the byte-copy helper (write/read/write_slice/read_slice, copy_to/copy_from::<u8> and VolatileArrayRef<u8> copies with a local buffer of the same length and a longer one, &[u8]/&mut [u8]/Vec<u8>/Cursor adapters, plain and exact stream forms; buffer-level entry points also with the local buffer directly before / after the guest bytes in one allocation; Vec<u8> sinks additionally in every fill state: capacity 0..=24 x bytes already held x length 1..=8 x guest address mod 8) and for whole objects of 1..16 bytes at every guest address of two adjacent regions (incl. objects straddling the boundary) through the guest-memory layer: hook H1 records kind, address and width of every primitive volatile access; required: the guest bytes accessed are exactly the range, each once, every access naturally aligned, exactly ONE access of the full width when the length is 1/2/4/8 and both addresses are aligned to it, the data arrives, and a transfer that moved bytes without a recorded volatile access is a violation; atomic store/load for all 10 integer types at every offset: Ok iff aligned, value round-trips. (b) E3: all interleavings, with a scheduling point before every primitive access, of a writer flipping 0 <-> all-ones twice and a reader reading twice (u16, u32, u64, and a 16-byte object whose first chunk is the last aligned u64 of a region): the reader may only see the old or the new value. States = choice-tree nodes, traces = schedules executed on the real code.");
     ctx.assume("one naturally aligned volatile access of <= 8 bytes is a single machine access (LLVM volatile semantics, x86-64/aarch64 single-copy atomicity); SC interleavings of whole primitive accesses");
     if ctx.replay_of.is_some() {
         println!("replay: deterministic enumeration; re-running it");
@@ -723,6 +806,7 @@ pub fn run(tier: Tier, replay: Option<String>) -> i32 {
     };
     crate::crash::guarded(&ctx, &describe, || slice_classes(&ctx));
     crate::crash::guarded(&ctx, &describe, || vec_sinks(&ctx));
+    crate::crash::guarded(&ctx, &describe, || adjacent_classes(&ctx));
     crate::crash::guarded(&ctx, &describe, || object_classes(&ctx));
     orderings(&ctx);
     atomic_alignment(&ctx);
